@@ -92,35 +92,39 @@ pub struct ServerOpts {
     /// 0 = current-thread runtime, n = multi-thread with n workers
     pub workers: usize,
     pub evict_limit: Option<u64>,
+    /// number of listener threads sharing one server (clones) on the same port, each with its own
+    /// current-thread runtime - the structure of memcrsd's `--runtime-type current-thread --threads n`
+    pub listeners: usize,
 }
 
 impl Default for ServerOpts {
     fn default() -> Self {
-        ServerOpts { timeout_secs: 60, conn_limit: 64, item_limit: 65536, backlog: 128, workers: 0, evict_limit: None }
+        ServerOpts { timeout_secs: 60, conn_limit: 64, item_limit: 65536, backlog: 128, workers: 0, evict_limit: None, listeners: 1 }
     }
 }
 
 pub struct Server {
     pub port: u16,
-    stop: Option<tokio::sync::oneshot::Sender<()>>,
-    thread: Option<std::thread::JoinHandle<()>>,
+    stop: Vec<tokio::sync::oneshot::Sender<()>>,
+    thread: Vec<std::thread::JoinHandle<()>>,
     pub timer: Arc<TestTimer>,
     pub inner: Arc<MemoryStore>,
     pub top: Arc<dyn Cache + Send + Sync>,
     pub item_limit: u32,
 }
 
-fn listening(port: u16) -> bool {
+fn listening(port: u16) -> usize {
     let want = format!("0100007F:{:04X}", port);
+    let mut n = 0;
     if let Ok(s) = std::fs::read_to_string("/proc/net/tcp") {
         for line in s.lines().skip(1) {
             let f: Vec<&str> = line.split_whitespace().collect();
             if f.len() > 3 && f[1] == want && f[3] == "0A" {
-                return true;
+                n += 1;
             }
         }
     }
-    false
+    n
 }
 
 impl Server {
@@ -132,35 +136,43 @@ impl Server {
             None => inner.clone(),
         };
         let cfg = MemcacheServerConfig::new(opts.timeout_secs, opts.conn_limit, opts.item_limit, opts.backlog);
-        let mut server = MemcacheTcpServer::new(cfg, top.clone());
-        let (tx, rx) = tokio::sync::oneshot::channel::<()>();
+        let server = MemcacheTcpServer::new(cfg, top.clone());
         let addr = SocketAddr::V4(SocketAddrV4::new(Ipv4Addr::LOCALHOST, port));
         let workers = opts.workers;
-        let thread = std::thread::Builder::new()
-            .name(format!("l3-server-{}", port))
-            .spawn(move || {
-                let rt = if workers == 0 {
-                    tokio::runtime::Builder::new_current_thread().enable_all().build().unwrap()
-                } else {
-                    tokio::runtime::Builder::new_multi_thread().worker_threads(workers).enable_all().build().unwrap()
-                };
-                rt.block_on(async move {
-                    tokio::select! {
-                        r = server.run(addr) => { let _ = r; }
-                        _ = rx => {}
-                    }
-                });
-                rt.shutdown_timeout(Duration::from_millis(200));
-            })
-            .map_err(|e| e.to_string())?;
+        let listeners = opts.listeners.max(1);
+        let mut stops = vec![];
+        let mut threads = vec![];
+        for li in 0..listeners {
+            let (tx, rx) = tokio::sync::oneshot::channel::<()>();
+            let mut server = server.clone();
+            let thread = std::thread::Builder::new()
+                .name(format!("l3-server-{}-{}", port, li))
+                .spawn(move || {
+                    let rt = if workers == 0 {
+                        tokio::runtime::Builder::new_current_thread().enable_all().build().unwrap()
+                    } else {
+                        tokio::runtime::Builder::new_multi_thread().worker_threads(workers).enable_all().build().unwrap()
+                    };
+                    rt.block_on(async move {
+                        tokio::select! {
+                            r = server.run(addr) => { let _ = r; }
+                            _ = rx => {}
+                        }
+                    });
+                    rt.shutdown_timeout(Duration::from_millis(200));
+                })
+                .map_err(|e| e.to_string())?;
+            stops.push(tx);
+            threads.push(thread);
+        }
         let t0 = Instant::now();
-        while !listening(port) {
+        while listening(port) < listeners {
             if t0.elapsed() > Duration::from_secs(5) {
                 return Err(format!("server on port {} did not start listening", port));
             }
             std::thread::sleep(Duration::from_micros(200));
         }
-        Ok(Server { port, stop: Some(tx), thread: Some(thread), timer, inner, top, item_limit: opts.item_limit })
+        Ok(Server { port, stop: stops, thread: threads, timer, inner, top, item_limit: opts.item_limit })
     }
 
     /// in-process side channel to the same store (no socket): run one request, return parsed response
@@ -188,10 +200,10 @@ impl Server {
         self.stop_inner();
     }
     fn stop_inner(&mut self) {
-        if let Some(tx) = self.stop.take() {
+        for tx in self.stop.drain(..) {
             let _ = tx.send(());
         }
-        if let Some(t) = self.thread.take() {
+        for t in self.thread.drain(..) {
             let _ = t.join();
         }
     }
